@@ -1,7 +1,25 @@
-//! Scenario crate `scn-oracle` (chain-level simulation on the chainsim runtime).
+//! Scenario crate `scn-oracle` (chain-level simulation on the chainsim runtime): oracle, custom price feeds,
+//! Chainlink report decoding, price decimals, price adjustment, market openness (C24–C29).
 
-pub const PROPERTIES: &[&str] = &[];
+pub mod common;
+pub mod decode;
+pub mod feed;
 
-pub fn registry(_property: &str) -> Option<simcore::CheckSpec> {
-    None
+use simcore::{CheckSpec, Part};
+
+pub const PROPERTIES: &[&str] = &["C25"];
+
+pub fn registry(property: &str) -> Option<CheckSpec> {
+    match property {
+        "C25" => Some(CheckSpec {
+            property: "C25",
+            level: "exploration",
+            parts: vec![Part::new(feed::FeedHistory, 40_000, 800_000)],
+            assumptions: vec![
+                "reports are unsigned: the mock Chainlink verifier program accepts every well-framed report".into(),
+                "report timestamps are u32 (Chainlink schema), so feed timestamps beyond 2106 are unreachable on chain".into(),
+            ],
+        }),
+        _ => None,
+    }
 }
